@@ -22,6 +22,7 @@ def oracle(line: str, obs: Obs):
     pstate = {n: {"conn": "-", "reason": "-", "disc": "0", "last_disc": None} for n in peers}
     cstate = {}
     known_conns = set()
+    dpr_seen = set()
     stopping = False
     simple = True
     for ev, lines in obs.blocks:
@@ -71,6 +72,18 @@ def oracle(line: str, obs: Obs):
                 if owner and pstate[owner]["reason"] != "DPR":
                     fails.append({"what": "peer's disconnect reason does not record the DPR", "event": ev[:200],
                                   "real": str(pstate[owner])})
+        # … and it stays out of routing until it is closed: never ready again, no request written to it
+        for c in dpr_seen:
+            st = conns.get(c, {}).get("state")
+            if st in ("READY", "WAITDWA"):
+                fails.append({"what": "connection back in a ready state (offered for routing) after its peer sent a DPR",
+                              "event": ev[:200], "real": str(conns.get(c))})
+            reqs = [l for l in lines if l.startswith(f"OUT {c} ") and kv(l)["R"] == "1" and kv(l)["cmd"] not in ("257", "280", "282")]
+            if reqs:
+                fails.append({"what": "request routed over a connection whose peer has sent a DPR", "event": ev[:200], "real": reqs[0]})
+        if t[0] == "rx" and len(t) == 3 and parse_msg(t[2])["cmd"] == 282 and parse_msg(t[2])["R"] \
+                and before_c.get(f"c{t[1]}") in ("READY", "WAITDWA"):
+            dpr_seen.add(f"c{t[1]}")
         # reason DPR must survive the subsequent close
         for n, v in pstate.items():
             if before_p[n]["reason"] == "DPR" and v["reason"] not in ("DPR",) and v["conn"] == "-" and before_p[n]["conn"] != "-":
@@ -143,6 +156,15 @@ def scenarios(rng: random.Random, tier: str):
                    " | rx 2 " + nodegen.dpr(n(), n()) + f" | eof 2 | adv 1 | adv {wait - 1} | adv {wait}")
         out.append(cfg_line(1, 0, wait) + " | start ok,ok | rx 0 " + nodegen.cea(2001, "peer1.x", n(), n()) + " | rx 0 " +
                    nodegen.dpr(n(), n()) + f" | eof 0 | adv {wait} | adv {wait}")
+    # the dialled peer announces its identity in another spelling (host names are case-insensitive)
+    for spell in ("PEER1.X", "Peer1.x"):
+        for wait in (2, 5):
+            base = cfg_line(1, 1, wait) + " | start ok,ok | rx 0 " + nodegen.cea(2001, spell, n(), n())
+            out.append(base + " | rx 0 " + nodegen.dpr(n(), n(), spell) + f" | eof 0 | adv {wait - 1} | adv 1 | adv {wait}")
+            out.append(base + f" | eof 0 | adv {wait - 1} | adv 1 | adv {wait}")
+            out.append(base + f" | rerr 0 hard | adv {wait} | adv {wait}")
+            out.append(cfg_line(1, 0, wait) + " | start ok,ok | rx 0 " + nodegen.cea(2001, spell, n(), n()) + " | rx 0 " +
+                       nodegen.dpr(n(), n(), spell) + f" | eof 0 | adv {wait} | adv {wait}")
     # DPR while a DWR of ours is unanswered (READY_WAITING_DWA), then a late DWA
     idle_cfg = cfg_line(1, 0, 5).replace("idle=30", "idle=3")
     out.append(idle_cfg + " | start ok,ok | rx 0 " + nodegen.cea(2001, "peer1.x", n(), n()) + " | adv 4 | rx 0 " +
